@@ -116,6 +116,46 @@ def generate(unit, scratch, canary=False):
     return path, text, metas, dict(extract.RULE_HITS)
 
 
+def havoc_unknown_callees(unit, text, err):
+    """Modular verification: a function under contract now calls something that has no contract in the generated file.
+    If that callee exists in /repo (same source files as the unit), add it as an `external_body` stub with NO postcondition
+    (its effect is unknown), so the caller's obligations are checked against 'anything may happen'.  -> (new text, [names])"""
+    names = set(re.findall(r"no method named `(\w+)` found", err)) | set(re.findall(r"cannot find function `(\w+)` in this scope", err))
+    if not names:
+        return text, []
+    files = sorted(set(re.findall(r"//@EXTRACT file=(\S+)", open(os.path.join(VERIF, unit["template"])).read())))
+    stubs, done = [], []
+    for nm in sorted(names):
+        for rel in files:
+            path = os.path.join(REPO, rel)
+            if not os.path.exists(path):
+                continue
+            src = open(path).read()
+            bl = extract.blank(src)
+            found = None
+            for (o, c, head) in [(m.end() - 1, None, m.group(1)) for m in re.finditer(r"(?m)^[ \t]*impl\b([^{;]*)\{", bl)]:
+                c = extract.match_brace(bl, o)
+                for (ls, bo, bc, depth) in extract.find_fn(src, bl, nm, o + 1, c):
+                    if depth == 0:
+                        ty = re.sub(r"<.*", "", head.split(" for ")[-1].strip()).strip()
+                        found = (ty, src[ls:bo].strip())
+            if not found:
+                for (ls, bo, bc, depth) in extract.find_fn(src, bl, nm):
+                    if depth == 0:
+                        found = (None, src[ls:bo].strip())
+            if found:
+                ty, sig = found
+                sig = extract.global_rules_sig(sig)
+                stub = f"#[verifier::external_body] {sig} {{ unimplemented!() }}  // VPV-HAVOC: callee without contract"
+                stubs.append(f"impl {ty} {{ {stub} }}" if ty else stub)
+                done.append(nm)
+                break
+    if not stubs:
+        return text, []
+    idx = text.rindex("} // verus!")
+    return text[:idx] + "\n// ---- havoc stubs for callees that have no contract in this unit ----\n" + "\n".join(stubs) + "\n" + text[idx:], done
+
+
 def run(unit, tier="quick", dev=False, only=None):
     t0 = time.time()
     prop = unit["prop"]
@@ -124,6 +164,13 @@ def run(unit, tier="quick", dev=False, only=None):
     try:
         path, text, metas, hits = generate(unit, scratch)
         js, err, wall, cmd = run_verus(path, extra=unit.get("verus_args"))
+        havoced = []
+        if "error[E0599]" in err or "error[E0425]" in err:
+            text2, havoced = havoc_unknown_callees(unit, text, err)
+            if havoced:
+                text = text2
+                open(path, "w").write(text)
+                js, err, wall, cmd = run_verus(path, extra=unit.get("verus_args"))
         if js is None or js["verification-results"].get("encountered-vir-error") or ("error[E" in err) or re.search(r"^error: (?!.*(not satisfied|assertion failed|termination|rlimit|Resource limit))", err, re.M) and not js["times-ms"].get("smt"):
             first = "\n".join(err.splitlines()[:25])
             raise Undecided("generated file is outside Verus' subset / no longer type-checks (lost anchor or unsupported construct):\n" + first)
@@ -202,8 +249,16 @@ def run(unit, tier="quick", dev=False, only=None):
             wit = None
             if unit.get("witness"):
                 wit = unit["witness"](scratch)
+            if havoced and not (wit and wit.get("found")):
+                # restructured code: the proof failed only against an unknown (havoc'd) callee and no failing input exists
+                # in the searched universe -> undecided, not an alarm
+                for o in new:
+                    o.status = UNDECIDED
+                    o.detail = ("callee(s) without contract: " + ", ".join(havoced) + " (treated as havoc); caller obligation not provable, "
+                                "native differential search found no failing input -> a contract for the new function is needed. " + o.detail)[:2500]
+                new = []
             for o in new:
-                payload = dict(tool="verus", function=o.fn, verifier_output=o.detail, verus_cmd=cmd,
+                payload = dict(tool="verus", function=o.fn, verifier_output=o.detail, verus_cmd=cmd, havoc_stubs=havoced,
                                note="Verus gives no counterexample; `witness` is the result of the native differential search (it decides nothing)",
                                witness=wit)
                 if not (wit and wit.get("found")):
@@ -219,7 +274,7 @@ def run(unit, tier="quick", dev=False, only=None):
                           wall_s=time.time() - t0,
                           extra=dict(rewrite_rules_hit=hits, verus_verified_total=verified, verus_errors_total=js["verification-results"]["errors"],
                                      verus_wall_s=round(wall, 1), canary=canary_info,
-                                     extracted_items_in_file=len(metas), generated_lines=text.count("\n")))
+                                     extracted_items_in_file=len(metas), generated_lines=text.count("\n"), havoc_stubs=havoced))
     finally:
         if not dev:
             shutil.rmtree(scratch, ignore_errors=True)
